@@ -232,6 +232,11 @@ void FsDropInService::processDropInAdd(const std::string& file) {
     OLOG << "Could not open drop in config=" << file;
     return;
   }
+
+  // The file has changed. If its new content cannot be used, what it
+  // contributed before must not stay active as if nothing had happened.
+  auto dropStaleVersion = [&]() { scheduleDropInRemove(file); };
+
   std::stringstream buf;
   buf << dropin_file.rdbuf();
   Config2::JsonConfigParser json_parser;
@@ -241,17 +246,20 @@ void FsDropInService::processDropInAdd(const std::string& file) {
   } catch (const std::exception& e) {
     OLOG << "Caught: " << e.what();
     OLOG << "Failed to inject drop in config into engine";
+    dropStaleVersion();
     return;
   }
   if (!dropin_root) {
     OLOG << "Could not parse drop in config=" << file;
     OLOG << "Failed to inject drop in config into engine";
+    dropStaleVersion();
     return;
   }
 
   if (!scheduleDropInAdd(file, *dropin_root)) {
     OLOG << "Could not compile drop in config";
     OLOG << "Failed to inject drop in config into engine";
+    dropStaleVersion();
   }
 }
 
